@@ -307,10 +307,11 @@ class Library:
                 return f(*args, **kwargs)
         if isinstance(recv, (bytes, bytearray)) and name == 'join':
             parts = args[0]
-            if isinstance(parts, SOpaque) and parts.kind == 'joinlist':
+            from .loops import JoinList
+            if isinstance(parts, JoinList):
                 if len(recv):
                     raise OutOfSubset('join with separator on abstract list')
-                return st.mk_bytes(parts.info['rope'].segs)
+                return st.mk_bytes(parts.segs)
             if not isinstance(parts, (list, tuple)):
                 raise OutOfSubset('join over %s' % type(parts).__name__)
             segs = []
@@ -508,7 +509,33 @@ class Library:
         st.pack_cache[key] = res
         return res
 
+    def low_bits(self, v, w):
+        """v == 2^w * h + low with 0 <= low < 2^w (floor semantics: valid for negative v too);
+        returns the w Booleans of low, LSB first."""
+        st = self.st
+        t = I(v)
+        key = ('lowbits', w, t.get_id())
+        if key in st.pack_cache:
+            return st.pack_cache[key]
+        st.keep.append(t)
+        bits = [st.fresh_bool('bit') for _ in range(w)]
+        low = z3.Sum([z3.If(bits[k], 2 ** k, 0) for k in range(w)])
+        if st.must(z3.And(t >= 0, t < 2 ** w)):
+            st.assume(t == low)                       # no higher part
+        else:
+            h = st.fresh_int('high')
+            st.assume(t == h * (2 ** w) + low)
+        st.pack_cache[key] = bits
+        return bits
+
     def bitop(self, op, a, b):
+        if op is ast.BitAnd:
+            for x, m in ((a, b), (b, a)):
+                if isinstance(m, int) and not isinstance(m, bool) and m >= 0 and not isinstance(x, (int, bool)):
+                    # x & constant mask: only the low bits of x matter
+                    w = next(c for c in (16, 32, 64, 128, 1 << 20) if m < 2 ** c)   # standard widths: one decomposition per value
+                    bits = self.low_bits(x, w)
+                    return mk_int(z3.Sum([z3.If(bits[k], 2 ** k, 0) for k in range(w) if (m >> k) & 1] or [z3.IntVal(0)]))
         wa, ba, sa = self.signed_bits(a)
         wb, bb, sb = self.signed_bits(b)
         w = max(wa, wb)
